@@ -186,7 +186,7 @@ func (c *Conn) AsyncRead() {
 					_ = c.closeWithError(err)
 					return
 				}
-				if n < len(*pbuf) {
+				if n < len(*pbuf) && !c.IsUDP() {
 					break
 				}
 			}
@@ -229,7 +229,7 @@ func (c *Conn) AsyncRead() {
 					_ = c.closeWithError(err)
 					return
 				}
-				if n < len(*pBuf) {
+				if n < len(*pBuf) && !c.IsUDP() {
 					break
 				}
 			}
